@@ -23,7 +23,7 @@ MANIFEST = dict(
          "nest < D; otherwise error_depth, no value, position = the first value enclosed by D containers (Doc.firstDeep). The differential run compares "
          "implementation, model and the specification's nest/firstDeep for D = 1..40, one-shot and chunked.",
     note="Trusted: Lean kernel + propext/Classical.choice/Quot.sound; Spec/Rfc8259.lean; hypothesis LibcSpec (number conversion, as in C01); harness/tok.c + Driver/Tok.lean; ASan as observer of the level array. Tie by translation (new): json_tokener_new_ex is translated from clang's typed AST of the current source into Lean on every run (tools/extract/c2lean.py -> Generated/Translated.lean) and Lemmas/TranslatedCtor.lean proves on that definition, for every depth: below 1 the answer is NULL and nothing was allocated; from 1 on the level stack is requested as exactly calloc(depth, sizeof(struct json_tokener_srec)) - the limit itself as the element count, not wrapped, capped or rounded -, the result is NULL exactly when an allocation fails, and every block obtained before a failure is freed (tokener_new_refuses, tokener_new_requests).",
-    technique="Lean 4 proof (stack invariant for all inputs; exact accept/reject theorem by induction over documents) + correspondence run against the RFC 8259 specification",
+    technique="Lean 4 proof (stack invariant for all inputs; exact accept/reject theorem by induction over documents) + correspondence run against the RFC 8259 specification + agreement theorems with Lean definitions translated from the current C source (clang AST) on every run",
     design="6/C15")
 
 
